@@ -37,3 +37,37 @@ def replay_csv(rows, cols, enc, blocked):
             if v != '' and g.get(c) != v:
                 return True, 'row %d column %s: %r became %r' % (i + 1, c, v[:30], str(g.get(c))[:30]), 'C20/value'
     return False, 'ok', None
+
+
+def replay_cli(in_enc, out_enc, ipm_enc, noblock):
+    """the command entry points on real files (scratch directory under /dev/shm, removed afterwards)"""
+    import contextlib
+    import csv
+    import os
+    import shutil
+    import tempfile
+    from cardutil.cli import mci_csv_to_ipm, mci_ipm_to_csv
+    d = tempfile.mkdtemp(prefix='verif.c20.', dir='/dev/shm')
+    try:
+        row = {'MTI': '1240', 'DE2': '4444555566667777', 'DE4': '1200', 'DE38': 'CAF\xc9 1'}
+        with open(os.path.join(d, 'in.csv'), 'w', encoding=in_enc, newline='') as f:
+            w = csv.DictWriter(f, fieldnames=list(row))
+            w.writeheader()
+            w.writerow(row)
+        with contextlib.redirect_stdout(io.StringIO()):
+            mci_csv_to_ipm.cli_run(in_filename=os.path.join(d, 'in.csv'), out_filename=os.path.join(d, 'out.ipm'), in_encoding=in_enc,
+                                   out_encoding=ipm_enc, no1014blocking=noblock, config_file=None, debug=False)
+            rc = mci_ipm_to_csv.cli_run(in_filename=os.path.join(d, 'out.ipm'), out_filename=os.path.join(d, 'back.csv'), in_encoding=ipm_enc,
+                                        out_encoding=out_enc, no1014blocking=noblock, config_file=None, debug=False)
+        if rc is not None:
+            return True, 'extraction reported an error', 'C20/cli'
+        try:
+            with open(os.path.join(d, 'back.csv'), 'r', encoding=out_enc, newline='') as f:
+                got = list(csv.DictReader(f))
+        except (UnicodeError, csv.Error) as e:
+            return True, 'output CSV cannot be read in the requested encoding %s: %s' % (out_enc, type(e).__name__), 'C20/cli-encoding'
+        if len(got) != 1 or any(got[0].get(c) != v for c, v in row.items()):
+            return True, 'row came back as %r' % ({c: got[0].get(c) for c in row} if got else None,), 'C20/cli-encoding'
+        return False, 'ok', None
+    finally:
+        shutil.rmtree(d, ignore_errors=True)
